@@ -73,7 +73,7 @@ def fullWrap : World → Path → Option (Option StaticView) := fun w p =>
     else some (some v)
   | r => r
 
-def connWith (wrap : World → Path → Option (Option StaticView)) (args : List String) : String :=
+def connWith (wrap : World → Path → Option (Option StaticView)) (args : List String) (trailer : Bool := true) : String :=
   match args with
   | [aw, tree, reqs] =>
     let w := parseTree tree
@@ -81,7 +81,7 @@ def connWith (wrap : World → Path → Option (Option StaticView)) (args : List
     let cfg : Cfg := { allowWrite := aw == "1", wrap := wrap }
     let (w', outs, aborted) := runReqs cfg w {} rs 0 []
     let outs := if aborted then outs else outs ++ ["end=-"]
-    String.intercalate " " (outs ++ [s!"fs={snapshotHash w'}", "leak=0", "out=0"])
+    String.intercalate " " (outs ++ (if trailer then [s!"fs={snapshotHash w'}", "leak=0", "out=0"] else []))
   | _ => "bad-op"
 
 /-- `clean <hexpath>`: filepath.Clean("/" + p) -/
